@@ -455,6 +455,7 @@ func signalScenario(res *hx.Result, place string, sig syscall.Signal, graceMs, l
 	defer fp.Close()
 	fp.OnList = func(ids []string) { tr.Emit("ListAnswer", "ok", true, "t_us", us()) }
 	fp.OnListArrive = func() { tr.Emit("ListArrive", "t_us", us(), "k", 0) }
+	fp.FailKinds = []string{"503", "500-body"} // failures the agent's loop is certain to see (no transport-level re-send)
 	fp.OnListFail = func(kind string) { tr.Emit("ListAnswer", "ok", false, "t_us", us(), "kind", kind) }
 	first := true
 	var lmu sync.Mutex
